@@ -198,10 +198,21 @@ func (g *G) DHCP() DHCPMsg {
 	d.HardwareOpts = g.U8("dhcp_hops")
 	d.Secs, d.Flags = g.U16("dhcp_secs"), g.U16("dhcp_flags")
 	var cw, yw, sw, gw []byte
-	d.ClientIP, cw = g.ip4("dhcp_ciaddr")
-	d.YourIP, yw = g.ip4("dhcp_yiaddr")
-	d.ServerIP, sw = g.ip4("dhcp_siaddr")
-	d.GatewayIP, gw = g.ip4("dhcp_giaddr")
+	// each address is set by the caller or left as the constructor made it (0.0.0.0: a client that has no
+	// address yet, no relay, ...)
+	addr := func(l string, field *net.IP) []byte {
+		if g.Chance(l+"_left_at_default", 1, 4) {
+			g.Label("dhcp_address_left_at_constructor_default")
+			return []byte{0, 0, 0, 0}
+		}
+		ip, w := g.ip4(l)
+		*field = ip
+		return w
+	}
+	cw = addr("dhcp_ciaddr", &d.ClientIP)
+	yw = addr("dhcp_yiaddr", &d.YourIP)
+	sw = addr("dhcp_siaddr", &d.ServerIP)
+	gw = addr("dhcp_giaddr", &d.GatewayIP)
 	hw := g.Bytes("dhcp_chaddr", hl)
 	d.ClientHWAddr = net.HardwareAddr(cp(hw))
 	sn, fl := g.Bytes("dhcp_sname", 64), g.Bytes("dhcp_file", 128)
@@ -416,7 +427,7 @@ func (g *G) VLANTag() (*protocol.VLAN, []byte) {
 
 // ProtoKinds draws one stand-alone header value of any MarshalBinary kind.
 func (g *G) ProtoValue() Proto {
-	switch g.Pick("proto_kind", 14) {
+	switch g.Pick("proto_kind", 15) {
 	case 0:
 		return g.TCPSeg()
 	case 1:
@@ -447,6 +458,9 @@ func (g *G) ProtoValue() Proto {
 	case 12:
 		ip, w, _ := g.IPv4Packet(400)
 		return Proto{"IPv4", ip, w}
+	case 14:
+		v, w := g.VLANTag()
+		return Proto{"VLAN", v, w}
 	default:
 		ip, w, _ := g.IPv6Packet(500)
 		return Proto{"IPv6", ip, w}
